@@ -30,6 +30,8 @@ import ScalesModel.Adapter.MuxT
 import ScalesModel.Adapter.Watermark
 import ScalesModel.Adapter.ServerSet
 import ScalesModel.Adapter.LB
+import ScalesModel.Adapter.Resurrector
+import ScalesModel.Adapter.ResPool
 open Scales
 
 def components : List Comp := [
@@ -59,7 +61,9 @@ def components : List Comp := [
   ⟨"serverset", Scales.ServerSet.comp.run⟩,
   ⟨"lbheap", Scales.LB.comp5.run⟩,
   ⟨"lbaperture", Scales.LB.comp5.run⟩,
-  ⟨"aperture", Scales.LB.comp6.run⟩
+  ⟨"aperture", Scales.LB.comp6.run⟩,
+  ⟨"resurrector", Scales.Res.comp.run⟩,
+  ⟨"respool", Scales.Pool.comp.run⟩
 ]
 
 structure CaseAcc where
